@@ -13,7 +13,7 @@ from mc.runner import Collector
 ID = "C05"
 LEVEL = "model_checking"
 FAMILY = "C05/"
-REQUIRED_CLASSES = ["bfs-config-ok", "ondisk-config-ok"]
+REQUIRED_CLASSES = ["bfs-config-ok", "ondisk-config-ok", "two-scale-ok"]
 RULE = ("one unit = one configuration (grid x (minishard,shard,preshift) "
         "bit triple x index/data encoding). In-memory strategy: BFS from the "
         "empty writer, transition = store of one not-yet-stored chunk, "
@@ -23,6 +23,9 @@ RULE = ("one unit = one configuration (grid x (minishard,shard,preshift) "
         "strategy: for every subset the ascending and the descending store "
         "order (all permutations for grids <= 4 chunks) are replayed and the "
         "shard files compared byte for byte with the BFS result. "
+        "Two-scale family: on ONE accessor store any subset of scale s0, close, "
+        "store any subset of scale s1, close, close again (the pattern "
+        "compute-scales uses), ascending and descending, both strategies. "
         "Non-trivial states: >= 2 chunks stored.")
 ASSUMPTIONS = [
     "one write session per scale, each chunk stored once (the statement's "
@@ -67,15 +70,27 @@ def configs(tier):
 def units(tier):
     cf = configs(tier)
     per = 6
-    return [{"configs": cf[i:i + per], "tier": tier}
-            for i in range(0, len(cf), per)]
+    u = [{"configs": cf[i:i + per], "tier": tier}
+         for i in range(0, len(cf), per)]
+    two = []
+    for size, c in (TWO_SCALE_GRIDS[:2] if tier == "quick"
+                    else TWO_SCALE_GRIDS):
+        for t in ((0, 0, 0), (1, 1, 0), (1, 0, 1), (2, 1, 1), (0, 2, 0)):
+            for ie, de in (("raw", "raw"), ("gzip", "gzip")):
+                two.append({"size": list(size), "chunk": c,
+                            "triple": list(t), "index_enc": ie,
+                            "data_enc": de})
+    u += [{"kind": "two-scale", "configs": two[i:i + 2], "tier": tier}
+          for i in range(0, len(two), 2)]
+    return u
 
 
 def space(tier):
     grids = GRIDS_Q if tier == "quick" else GRIDS_T
     return {"grids": len(grids), "triples": len(triples(tier)),
             "encodings": len(ENCODINGS), "configs": len(configs(tier)),
-            "strategies": 2}
+            "strategies": 2, "two_scale_configs": 20 if tier == "quick"
+            else 40}
 
 
 def _report(col, vio, family):
@@ -146,8 +161,45 @@ def explore_config(col, cfg, tier, family, pkg, spec, ondisk=True):
            else "ondisk-config-violating")
 
 
+TWO_SCALE_GRIDS = [((2, 2, 1), 1), ((3, 1, 1), 1), ((4, 1, 1), 1),
+                   ((3, 3, 1), 2)]
+
+
+def two_scale_config(col, cfg, family):
+    """store into s0, close, store into s1, close, close - on ONE accessor
+    (what compute_dyadic_scales does); every subset of both scales in
+    ascending and descending order, both strategies"""
+    n0 = len(se.chunk_list(cfg["size"], cfg["chunk"]))
+    size1 = [-(-x // 2) for x in cfg["size"]]
+    n1 = len(se.chunk_list(size1, cfg["chunk"]))
+    bad = 0
+    runs = 0
+    for strategy in ("in memory", "on disk"):
+        c = dict(cfg, strategy=strategy)
+        for r0 in range(n0 + 1):
+            for s0 in itertools.combinations(range(n0), r0):
+                for r1 in range(n1 + 1):
+                    for s1 in itertools.combinations(range(n1), r1):
+                        for o0, o1 in ((s0, s1), (s0[::-1], s1[::-1])):
+                            vio = se.Violations()
+                            se.run_two_scale(c, o0, o1, vio, pkg=True,
+                                             spec=False)
+                            runs += 1
+                            bad += _report(col, vio, family)
+    col.r["traces"] += runs
+    col.r["states"] += runs
+    col.r["transitions"] += runs
+    col.ev(runs, runs, "two-scale-ok" if not bad else "two-scale-violating")
+
+
 def run_unit(u):
     col = Collector()
+    if u.get("kind") == "two-scale":
+        for cfg in u["configs"]:
+            two_scale_config(col, cfg, FAMILY)
+        col.sample(se.case_of(dict(u["configs"][0], strategy="on disk"),
+                              [1, 0], order_s1=[0], family="two-scale"))
+        return col.result()
     for cfg in u["configs"]:
         ondisk = (u["tier"] == "thorough"
                   or tuple(cfg["triple"]) in ((0, 0, 0), (1, 1, 0),
@@ -169,6 +221,13 @@ def replay(case, family=FAMILY, pkg=True, spec=False):
     vio = se.Violations()
     cfg = {k: case[k] for k in ("size", "chunk", "triple", "index_enc",
                                 "data_enc", "strategy")}
+    if case.get("family") == "two-scale":
+        se.run_two_scale(cfg, tuple(case["order"]), tuple(case["order_s1"]),
+                         vio, pkg=pkg, spec=spec)
+        for sig, c, exp, obs in vio.items:
+            if sig.startswith(family):
+                col.violation(sig, c, exp, obs)
+        return col.records()
     dg = se.run_history(cfg, tuple(case["order"]), vio, pkg=pkg, spec=spec)
     if "other_order" in case:
         dg2 = se.run_history(cfg, tuple(case["other_order"]), se.Violations(),
